@@ -910,9 +910,9 @@ Section C07.
     enter_ctx t c s = enter_eff t c (set_task t (tk_with_ctxs tk (tk_ctxs tk ++ [c]) (tk_cact tk)) s).
   Proof. intros Hg. unfold enter_ctx, get_task, enter_eff. rewrite Hg. reflexivity. Qed.
 
-  Lemma exit_ctx_eff t c s out tk : get t s = Some (mkFut out (KTask tk)) ->
+  Lemma exit_ctx_eff t c s out tk : get t s = Some (mkFut out (KTask tk)) -> tk_cact tk = true ->
     exit_ctx t c s = pause_plain t c (set_task t (tk_with_ctxs tk (remove_ctx c (tk_ctxs tk)) (tk_cact tk)) s).
-  Proof. intros Hg. unfold exit_ctx, get_task. rewrite Hg. reflexivity. Qed.
+  Proof. exact (exit_ctx_active t c s out tk). Qed.
 
   Lemma vp_MRun spec S t p fr s : DL root res spec S (mkC (MRun t p) fr s) -> VP (mkC (MRun t p) fr s) ->
     VS (mkC (MRun t p) fr s) (step P (mkC (MRun t p) fr s)).
@@ -1020,7 +1020,7 @@ Section C07.
     - (* Exit *)
       assert (Hwx : exists op, tk_ctxs tk = op ++ [c] /\ wn op k) by (inversion Hwn; subst; eauto).
       destruct Hwx as (op & Eop & Hwk).
-      rewrite (exit_ctx_eff t c s None tk Hg).
+      rewrite (exit_ctx_eff t c s None tk Hg Hcact).
       assert (Hrm : remove_ctx c (tk_ctxs tk) = op) by (rewrite Eop; apply remove_ctx_last; rewrite <- Eop; exact Hnd).
       rewrite Hrm.
       set (tk1 := tk_with_ctxs tk op (tk_cact tk)).
@@ -1496,7 +1496,7 @@ Section Awaiting.
       { intros s2 E1 E2. apply Hgen; [rewrite E2; apply tasks_of_regs; apply regs_set_task|].
         intros h N _. unfold get. rewrite E1. destruct U1 as (_ & B & _). apply B. exact N. }
       destruct c as [cid f|cid|cid var v]; apply V; reflexivity.
-    - unfold exit_ctx, get_task. rewrite Hg.
+    - rewrite (exit_ctx_active t c s None tk Hg (Hca tk Hg)).
       set (tk1 := tk_with_ctxs tk (remove_ctx c (tk_ctxs tk)) (tk_cact tk)).
       pose proof (set_task_upd s t None tk tk1 Hg) as U1.
       assert (V : forall s2, heap s2 = heap (set_task t tk1 s) -> tasks s2 = tasks (set_task t tk1 s) -> AWs s2).
